@@ -113,6 +113,7 @@ type Ctl struct {
 	SubCtxMarkers   []string
 	PanicOnSub      bool
 	PanicOnTeardown bool
+	OnSub           func(cs *ctlSub) // runs inside the subscription, before the teardown is returned (a source that ends synchronously)
 }
 
 func (c *Ctl) Observable(mode string, script []Step) ro.Observable[any] {
@@ -125,6 +126,9 @@ func (c *Ctl) Observable(mode string, script []Step) ro.Observable[any] {
 		c.mu.Unlock()
 		if c.PanicOnSub {
 			panic(cat.ErrFault)
+		}
+		if c.OnSub != nil {
+			c.OnSub(cs)
 		}
 		if mode == "sync" {
 			for _, st := range script {
